@@ -59,13 +59,13 @@ def exact_B(A, I):
     return [[sum(Af[i][a] * X[a][t] for a in range(r)) for t in range(len(S))] for i in range(len(Af))]
 
 
-def record(A, e, k, rect=None):
+def record(A, e, k, rect=None, dtype=float):
     """Run maxvol / maxvol_rect with hooks on; returns (trace dict, events raw, result)."""
     if _verif is not None and not _verif.ON:
         raise common.Machinery('teneva._verif hooks are off (TENEVA_VERIF=1 must be set before import)')
     if _verif is not None:
         _verif.drain()
-    A = np.array(A, dtype=float)
+    A = np.array(A, dtype=dtype)
     if rect is None:
         I, B = teneva.maxvol(A, float(e), k)
     else:
@@ -283,10 +283,15 @@ def run(ctx):
             rect = ([1.1, 1.01, 1.5, 1.2][int(rng.integers(4))], drmin, drmax)
             if rect[2] == 0 and rng.random() < 0.5:
                 rect = (rect[0], 0, 0)
+        # integer matrices are handed over in integer and floating types alike (same matrix, same specification)
+        dt = [float, np.int64, np.int32, float][t % 4]
         try:
-            raw, I, B = record(A, e, k, rect)
+            raw, I, B = record(A, e, k, rect, dtype=dt)
         except ValueError as ex:
             ctx.violation('maxvol:raises', 'valid call raised %s (A=%s, rect=%s)' % (ex, A.tolist(), rect), case={'A': A.tolist()})
+            continue
+        if not (np.asarray(B).dtype == np.float64):
+            ctx.violation('maxvol:result', 'coefficient matrix has dtype %s for input dtype %s' % (np.asarray(B).dtype, np.dtype(dt)), case={'A': A.tolist()})
             continue
         if raw is None:
             ctx.notes['degraded'] = 'maxvol hooks did not fire: results judged by their black-box contract only'
@@ -356,6 +361,18 @@ def run(ctx):
         if mv is not None:
             ctx.violation('maxvol:float' if rect is None else 'maxvol_rect:float', '%s (n=%d r=%d cond=%.1e e=%s k=%s rect=%s)' % (mv, n, r, cond, e, k, rect),
                           case={'A': A.tolist(), 'e': e, 'k': k, 'rect': rect})
+    # --- very tall matrices (row counts around and far above internal block sizes): contract of the result
+    for t, n in enumerate([16383, 16385, 20000] if quick else [4095, 4097, 8193, 16383, 16385, 17000, 20000, 24000]):     # (the LU of maxvol builds an n x n permutation matrix: 24000 rows = 4.6 GB)
+        for rect in (None, (1.1, 1, 2)):
+            r = [6, 8, 12][t % 3]                        # enough columns for several swaps after the LU start
+            A = rng.normal(size=(n, r))
+            e, k = 1.01, 100
+            raw, I, B = record(A, e, k, rect)
+            bv = blackbox_verdict(A, e, k, rect, I, B)
+            nsteps = sum(1 for x in (raw or []) if x['ev'] in ('mv_swap', 'mr_add'))
+            ctx.case(key=('tall', n, r, rect is None), nontrivial=nsteps > 0 or raw is None)
+            if bv is not None:
+                ctx.violation('maxvol:tall' if rect is None else 'maxvol_rect:tall', '%s (n=%d r=%d rect=%s, %d steps)' % (bv, n, r, rect, nsteps), case={'n': n, 'r': r, 'seed': ctx.seed})
     # --- spec -> code: the converged result must be one of the locally optimal sets TLC found
     res = tlc.run('MC_Maxvol', cfg='MC_Maxvol_e.cfg', workers=8, timeout=3000)
     ctx.add_tlc(res, 'locally optimal index sets of all 3x2 matrices with entries {-1,0,1} (emitted)')
